@@ -27,7 +27,16 @@ struct ChunkLayout {
     bool shuffle_dict = false;
     int unsupported = 0;               // 0 none; 1 DELTA_BINARY_PACKED tag, 2 BYTE_STREAM_SPLIT tag, 3 data page v2, 5 BIT_PACKED levels tag
 };
+// A deliberate inconsistency planted while the file is emitted (for hostile-file campaigns): offsets stay coherent,
+// one field says something else than the bytes.
+struct Lie {
+    size_t chunk = 0; int page = 0;     // page index among the chunk's pages (0 = first page incl. dictionary page)
+    std::vector<int> path;              // Thrift field path inside the PageHeader, e.g. {5,1} = data_page_header.num_values
+    int64_t value = 0;
+    int body_kind = 0;                  // 0 header field; 1 first byte of the values section (dictionary index bit width); 2 definition-level length prefix; 3 repetition-level length prefix
+};
 struct Layout {
+    std::vector<Lie> lies;
     int codec = 0;
     std::vector<ChunkLayout> chunks;   // rg-major
     bool long_form = false, junk_fields = false, kv_meta = false, exotic_snappy = false, column_orders = true, ordinals = true;
@@ -165,10 +174,32 @@ static inline Written write_file(const Table& t, const Layout& lay) {
             // dictionary
             std::vector<std::string> dict; std::map<std::string, uint32_t> dix;
             bool use_dict = L.dict && col.type != T_BOOL && !ch.vals.empty();
+            int page_counter = 0;
+            auto apply_header_lies = [&](TV& H) {
+                for (auto& lie : lay.lies) {
+                    if (lie.chunk != li || lie.page != page_counter || lie.body_kind != 0 || lie.path.empty()) continue;
+                    TV* cur = &H; bool ok = true;
+                    for (size_t k = 0; k + 1 < lie.path.size(); k++) { cur = cur->getm(lie.path[k]); if (!cur) { ok = false; break; } }
+                    if (!ok) continue;
+                    TV* leaf = cur->getm(lie.path.back());
+                    if (leaf) leaf->i = lie.value; else cur->add(lie.path.back(), TV::I32(lie.value));
+                }
+            };
+            auto apply_body_lies = [&](std::string& body, size_t rep_len, size_t def_len) {
+                for (auto& lie : lay.lies) {
+                    if (lie.chunk != li || lie.page != page_counter || lie.body_kind == 0) continue;
+                    uint32_t v = (uint32_t)lie.value;
+                    if (lie.body_kind == 1 && body.size() > rep_len + def_len) body[rep_len + def_len] = (char)lie.value;
+                    else if (lie.body_kind == 2 && def_len >= 4) memcpy(&body[rep_len], &v, 4);
+                    else if (lie.body_kind == 3 && rep_len >= 4) memcpy(&body[0], &v, 4);
+                }
+            };
             auto emit_page = [&](TV& H, const std::string& body, bool is_dict) {
                 std::string comp = lay.codec == C_NONE ? body : compress(lay.codec, body, lay.exotic_snappy, r);
                 H.set(2, TV::I32((int64_t)body.size())); H.set(3, TV::I32((int64_t)comp.size()));
                 if (L.crc) H.set(4, TV::I32((int32_t)crc32_ieee(comp.data(), comp.size())));
+                apply_header_lies(H);
+                page_counter++;
                 std::stable_sort(H.f.begin(), H.f.end(), [](const std::pair<int, TV>& a, const std::pair<int, TV>& b) { return a.first < b.first; });
                 std::string hb = tv_serialize(H, lay.long_form);
                 o += hb; co.page_bodies.push_back({o.size(), o.size() + comp.size()}); o += comp;
@@ -240,6 +271,7 @@ static inline Written write_file(const Table& t, const Layout& lay) {
                     unc_total += hb.size() + rep_bytes.size() + def_bytes.size() + vals.size();
                 } else {
                     std::string body = rep_bytes + def_bytes + vals;
+                    apply_body_lies(body, rep_bytes.size(), def_bytes.size());
                     int lvl_tag = legacy_bitpacked ? 4 : 3;
                     H.add(1, TV::I32(0));
                     TV DH = TV::Struct(); DH.add(1, TV::I32((int64_t)pe)); DH.add(2, TV::I32(enc)); DH.add(3, TV::I32(lvl_tag)); DH.add(4, TV::I32(lvl_tag));
